@@ -627,7 +627,7 @@ Proof.
   - unfold run_tx. destruct (validate_basic m); [|discriminate].
     destruct (handle _ m) eqn:H; try discriminate. intros [= <-].
     eapply money_handle; [| |exact H]; [money_updates s; exact Hi|exact Hwf].
-  - intros [= <-]. apply (fold_left_inv money_inv).
+  - destruct (forallb pchange_valid _); [|discriminate]. intros [= <-]. apply (fold_left_inv money_inv).
     + intros x c Hx. pose proof (apply_pchange_keeps x c). eapply money_inv_keeps; eauto.
     + money_updates s. exact Hi.
   - destruct (end_block _) as [se| |] eqn:H; try discriminate. intros [= <-].
